@@ -3,7 +3,7 @@ generate.  Every site must be discharged by a named invariant whose establishing
 on the same run; unmatched sites fail closed."""
 import re
 
-from ..mir import Mir, Exprs, canon, strip_transparent, Call, natural_loops, short_path, control_deps_transitive, parse_at
+from ..mir import Mir, Exprs, canon, strip_transparent, Call, natural_loops, short_path, control_deps_transitive, parse_at, change_flag_condition
 from ..report import Result, finish
 
 PANIC_FNS = ("std::rt::panic_fmt", "core::panicking::panic", "core::panicking::panic_fmt", "std::rt::begin_panic", "core::panicking::panic_display",
@@ -163,14 +163,14 @@ def run_rules(mir, res, cx):
                     ce = canon(ex.operand(t["discr"]))
                     if ce.startswith("discr(VecDeque::pop_front("):
                         role = "worklist(pop_front)"
-                    elif re.match(r"^HashSet::contains\(", ce) or re.match(r"^Not\(HashSet::contains\(", ce):
+                    elif re.match(r"^(Not\()?HashSet::(contains|insert)\(", ce):
                         # the tested value must change every iteration: it depends on a loop-carried counter
                         e = ex.operand(t["discr"])
                         dep = any(x.k == "cycle" or (x.k == "phi") for x in e.walk()) and "AddWithOverflow" in ce
                         # the tested value itself must be recomputed inside the loop
                         redefined = False
                         for cc in calls:
-                            if (cc.rpath or "").endswith("HashSet::<T, S, A>::contains") and len(cc.args) == 2:
+                            if (cc.rpath or "").endswith(("HashSet::<T, S, A>::contains", "HashSet::<T, S, A>::insert")) and len(cc.args) == 2:
                                 from ..mir import borrow_root
                                 root, via = borrow_root(fn, cc.args[1])
                                 l = root["l"] if root is not None else None
@@ -190,7 +190,7 @@ def run_rules(mir, res, cx):
                                             nxt = r2["l"] if r2 is not None else None
                                     l = nxt
                         role = "fresh-name(contains)" if (dep and redefined) else "contains-without-progress"
-                    elif re.match(r"^\w+::\w+\(.*\)\.0$", ce) or re.match(r"^Not\(\w+::\w+\(.*\)\.0\)$", ce):
+                    elif change_flag_condition(ce) is not None:
                         # boolean flag returned by a local step function
                         role = "fixpoint(change-flag)"
             fkey = fn.file.rsplit("/", 1)[-1]
@@ -338,7 +338,8 @@ def discharge(mir, cx, fn, ex, cls, kind, bb, obj, desc, args, tests):
         tb = fn.blocks[t["target"]]
         for s_ in tb["stmts"]:
             if s_["k"] == "assign" and s_["rv"]["k"] == "bin" and s_["rv"]["op"] in ("Div", "Rem"):
-                d = canon(ex.operand(s_["rv"]["b"]))
+                from ..mir import inline_helpers
+                d = inline_helpers(mir, canon(ex.operand(s_["rv"]["b"])))
                 if re.match(r"^\(.* AddWithOverflow const\(1_usize\)\)\.0$", d):
                     return "D-div", True, "divisor is `len + 1` (%s)" % d[:80]
                 return "D-div", False, "divisor `%s` is not of the form x + 1" % d[:80]
@@ -732,12 +733,12 @@ def check_table_cols(mir, res, rule):
                     for fname, want in (("terminals", r"terminal_enum\.variants"), ("nonterminals", r"nonterminals")):
                         e = canon(ex.operand(s_["rv"]["ops"][flds.index(fname)]))
                         src = e
-                        m = re.match(r"^\w+::(\w+)\(param2\)$", e)
+                        m = re.match(r"^\w+::(\w+)\(param\d+\)$", e)
                         if m:
                             cal = [g for g in mir.fns.values() if g.name == m.group(1) and g.file == fn.file]
                             if len(cal) == 1:
                                 src = canon(Exprs(cal[0]).local(0))
-                        good = bool(re.match(r"^Iterator::collect\(Iterator::map\(slice::iter\(param1\.%s\), .*\)\)$" % want, src))
+                        good = bool(re.match(r"^Iterator::collect\(Iterator::map\(slice::iter\(param\d+\.%s\), .*\)\)$" % want, src))
                         res.inst(rule, "table-columns|" + fname, fn.where, True, src[:120])
                         if not good:
                             ok = False
